@@ -80,3 +80,79 @@ Theorem C05_invariant_with_oversize_outbound :
   forall (cfg : scfg) (ops : list op),
     ops_ok_x cfg init ops -> Inv cfg (run_state_x cfg init ops).
 Proof. exact inv_reachable_x. Qed.
+
+(* ---------- interleaved semantics (Model/Conc.v): every schedule of suspended requests, disconnects, time-outs ---------- *)
+From Coq Require Import List NArith.
+From NW Require Import Model.Conc Proofs.ConcDefs Proofs.ConcEv Proofs.ConcInv Proofs.ConcSmall Proofs.ConcSource Gen.ConcFlags.
+Import ListNotations.
+Local Open Scope N_scope.
+
+Theorem C05_conc_views_agree_at_quiescence :
+  forall (cf : ccfg) (es : list ev),
+    fixed cf -> quiescent (cstate_after cf es) -> views_agree (cg (cstate_after cf es)).
+Proof. exact conc_views_agree_at_quiescence. Qed.
+
+Theorem C05_conc_listed_is_member_always :
+  forall (cf : ccfg) (es : list ev) (u : user) (ch : chan),
+    fixed cf ->
+    is_listed (cg (cstate_after cf es)) u ch -> is_member (cg (cstate_after cf es)) u ch.
+Proof. exact conc_listed_is_member_always. Qed.
+
+Theorem C05_conc_disconnected_member_is_being_removed :
+  forall (cf : ccfg) (es : list ev) (u : user) (ch : chan) (o : oid),
+    fixed cf ->
+    let s := cstate_after cf es in
+    cmap (cg s) ch = Some o ->
+    In u (members (objs (cg s) o)) -> reg (cg s) u = [] -> covered s u ch o.
+Proof. exact conc_disconnected_member_is_being_removed. Qed.
+
+Theorem C05_conc_released_channel_stays_empty :
+  forall (cf : ccfg) (es : list ev) (o : oid),
+    fixed cf ->
+    (forall ch : chan, cmap (cg (cstate_after cf es)) ch <> Some o) ->
+    members (objs (cg (cstate_after cf es)) o) = [].
+Proof. exact conc_released_channel_stays_empty. Qed.
+
+Theorem C05_conc_invariant_every_schedule :
+  forall (cf : ccfg) (es : list ev), fixed cf -> CInv (cstate_after cf es).
+Proof. exact cinv_reachable. Qed.
+
+Theorem C05_conc_waiting_join_admitted_to_released_channel_refuted :
+  let s := cstate_after (cf_of false true) orphan_schedule in
+    quiescent s /\
+    is_listed (cg s) 20 7 /\
+    ~ is_member (cg s) 20 7 /\
+    In (OAck 2 2 A_JOIN) (snd (crun (cf_of false true) cinit orphan_schedule)).
+Proof. exact conc_waiting_join_admitted_to_released_channel_refuted. Qed.
+
+Theorem C05_conc_waiting_join_refused_now :
+  let s := cstate_after (cf_of true true) orphan_schedule in
+    quiescent s /\
+    ~ is_listed (cg s) 20 7 /\
+    In (OErr 2 2 E_RESOURCE_CONFLICT) (snd (crun (cf_of true true) cinit orphan_schedule)).
+Proof. exact conc_waiting_join_refused_now. Qed.
+
+Theorem C05_conc_late_index_leaves_ghost_member_refuted :
+  let s := cstate_after (cf_of true false) ghost_schedule in
+    quiescent s /\ is_member (cg s) 20 7 /\ reg (cg s) 20 = [].
+Proof. exact conc_late_index_leaves_ghost_member_refuted. Qed.
+
+Theorem C05_conc_early_index_no_ghost_now :
+  let s :=
+      fst (crun (cf_of true true) cinit (ghost_schedule ++ [ERun 2 true 0; ERun 2 true 0])) in
+    quiescent s /\ ~ is_member (cg s) 20 7.
+Proof. exact conc_early_index_no_ghost_now. Qed.
+
+Theorem C05_source_is_the_fixed_model :
+  forall (fe fp : bool) (ms mc : N), fixed (src_cfg fe fp ms mc).
+Proof. exact source_is_fixed. Qed.
+
+Theorem C05_source_segment_layout :
+  forallb snd conc_source_shape = true.
+Proof. exact source_segment_layout. Qed.
+
+Theorem C05_source_views_agree_at_quiescence :
+  forall (fe fp : bool) (ms mc : N) (es : list ev),
+    quiescent (cstate_after (src_cfg fe fp ms mc) es) ->
+    views_agree (cg (cstate_after (src_cfg fe fp ms mc) es)).
+Proof. exact source_views_agree. Qed.
